@@ -29,6 +29,8 @@ C_LIB_PASSTHRU = {'memcmp', 'memcpy', 'memmove', 'memset', 'strlen',
                   '__builtin_bswap16', '__builtin_bswap32', '__builtin_bswap64',
                   '__builtin_memcmp', '__builtin_memcpy', '__builtin_strlen', 'abort'}
 LIFT_NS = ('tao', 'vf')
+# library classes whose (inline, header-defined) member functions are lowered like PEGTL code
+LIFT_STD_RECORDS = ('std::basic_string_view', 'std::numeric_limits', 'std::char_traits')
 SIGNED_C = {'char', 'signed char', 'short', 'int', 'long', 'long long', '__int128'}
 
 
@@ -459,7 +461,17 @@ class LowerBase:
 
     def rec_is_external(self, rid):
         n = self.ast.record_def(rid)
+        if self.ast.qualname(n) in LIFT_STD_RECORDS:
+            return False
         return not self.ast.in_namespace(n, LIFT_NS) and not self.is_lambda(n)
+
+    def in_lift(self, d):
+        if self.ast.in_namespace(d, LIFT_NS):
+            return True
+        rec = self.ast.enclosing_record(d)
+        if rec is not None and (self.is_lambda(rec) or self.ast.qualname(rec) in LIFT_STD_RECORDS):
+            return True
+        return False
 
     def is_lambda(self, rec):
         return rec.get('kind') == 'CXXRecordDecl' and not rec.get('name') and \
@@ -518,12 +530,7 @@ class LowerBase:
         d = self.ast.definition(fn)
         if self.ast.body(d) is None and not d.get('explicitlyDefaulted'):
             return False
-        if self.ast.in_namespace(d, LIFT_NS):
-            return True
-        rec = self.ast.enclosing_record(d)
-        if rec is not None and self.is_lambda(rec):
-            return True
-        return False
+        return self.in_lift(d)
 
     def fn_cname(self, fn):
         key = self.fn_key(fn)
@@ -534,7 +541,7 @@ class LowerBase:
         d = self.ast.definition(fn)
         nm = d.get('name', 'fn')
         q = self.ast.qualname(d)
-        if not self.ast.in_namespace(d, LIFT_NS) and nm in C_LIB_PASSTHRU:
+        if not self.in_lift(d) and nm in C_LIB_PASSTHRU:
             self.fn_names[key] = nm
             if self.cur_calls is not None:
                 self.cur_calls.add(nm)
@@ -588,12 +595,10 @@ class LowerBase:
         if self.fn_nothrow_decl(d):
             self.maythrow_cache[key] = False
             return False
-        if not self.ast.in_namespace(d, LIFT_NS):
-            rec = self.ast.enclosing_record(d)
-            if not (rec is not None and self.is_lambda(rec)):
-                # C library and std:: functions that are kept are treated as non-throwing
-                self.maythrow_cache[key] = False
-                return False
+        if not self.in_lift(d):
+            # C library and std:: functions that are kept are treated as non-throwing
+            self.maythrow_cache[key] = False
+            return False
         body = self.ast.body(d)
         if body is None:
             r = not d.get('explicitlyDefaulted') and not d.get('isImplicit')
